@@ -179,7 +179,7 @@ Qed.
 
 (* one layout item = one iteration of the outer loop *)
 Lemma ws_item : forall it, layout_item it -> forall pre tl nn inc fuel f,
-  (inc = false -> count_nl it = 0) ->
+  (inc = false -> count_nl it = 0 \/ exists r, it = c_slash :: c_slash :: r) ->
   byte_len it <= fuel ->
   let src := pre ++ it ++ tl in
   ws_loop true src (byte_len src) fuel (S f) nn (byte_len pre) inc
@@ -197,7 +197,8 @@ Proof.
       rewrite Hn. rewrite ?Nat.add_0_r. reflexivity.
     + cbn [orb] in Hc. rewrite Hc. destruct inc.
       * cbn [negb]. f_equal. lia.
-      * exfalso. specialize (Hinc eq_refl). rewrite count_nl_cons, Hc in Hinc. lia.
+      * exfalso. destruct (Hinc eq_refl) as [Hz|[r Hr]]; [|discriminate Hr].
+        rewrite count_nl_cons, Hc in Hz. lia.
   - (* // comment *)
     cbn [app]. cbn [ws_loop]. rewrite lt_len_app. cbn [negb]. rewrite next_char_app. cbn [obind].
     destruct slash_not_blank as [H1 H2]. rewrite H1, H2. rewrite N.eqb_refl.
@@ -251,7 +252,8 @@ Proof.
     + cbn [obind]. rewrite Hfn, Hfn2, Hcnt. f_equal.
       rewrite !byte_len_snoc. simpl byte_len. change (len_utf8 c_slash) with 1.
       change (len_utf8 c_star) with 1. lia.
-    + intros Hi. rewrite Hfn. specialize (Hinc Hi). rewrite Hcnt in Hinc. exact Hinc.
+    + intros Hi. rewrite Hfn. destruct (Hinc Hi) as [Hz|[r Hr]]; [|discriminate Hr].
+      rewrite Hcnt in Hz. exact Hz.
     + pose proof (length_le_byte_len body) as Hl. simpl byte_len in Hfuel.
       rewrite byte_len_app in Hfuel. simpl byte_len in Hfuel.
       change (len_utf8 c_slash) with 1 in Hfuel. change (len_utf8 c_star) with 1 in Hfuel. lia.
@@ -277,11 +279,49 @@ Proof.
     rewrite byte_len_app in Hf, Hfuel. rewrite count_nl_app in Hinc.
     pose proof (layout_item_nonempty it Hit) as Hne.
     rewrite <- app_assoc.
-    rewrite (ws_item it Hit pre (l' ++ rest) nn inc fuel f) by (try (intros Hi; specialize (Hinc Hi)); lia).
+    rewrite (ws_item it Hit pre (l' ++ rest) nn inc fuel f) by (try (intros Hi; specialize (Hinc Hi); left); lia).
     replace (byte_len pre + byte_len it) with (byte_len (pre ++ it)) by apply byte_len_app.
     rewrite (app_assoc pre it (l' ++ rest)).
     rewrite IH by (try (intros Hi; specialize (Hinc Hi)); try assumption; lia).
     rewrite byte_len_app, byte_len_app, count_nl_app. f_equal. f_equal. f_equal; lia.
+Qed.
+
+(* the same for [inc = false] over line layouts *)
+Lemma ws_line_gen : forall l, line_layout l -> forall pre rest nn fuel f,
+  starts_solid rest ->
+  byte_len l + 1 <= f -> byte_len l <= fuel ->
+  let src := pre ++ l ++ rest in
+  ws_loop true src (byte_len src) fuel f nn (byte_len pre) false
+  = Done (Ok (byte_len pre + byte_len l, nn + count_nl l)).
+Proof.
+  intros l Hl. induction Hl as [|it l' Hit Hok Hl' IH]; intros pre rest nn fuel f Hs Hf Hfuel src; subst src.
+  - destruct f as [|f]; [simpl in Hf; lia|]. cbn [app]. rewrite ws_stop by assumption.
+    simpl. rewrite !Nat.add_0_r. reflexivity.
+  - destruct f as [|f]; [lia|].
+    rewrite byte_len_app in Hf, Hfuel.
+    pose proof (layout_item_nonempty it Hit) as Hne.
+    rewrite <- app_assoc.
+    rewrite (ws_item it Hit pre (l' ++ rest) nn false fuel f) by (try (intros _; exact Hok); lia).
+    replace (byte_len pre + byte_len it) with (byte_len (pre ++ it)) by apply byte_len_app.
+    rewrite (app_assoc pre it (l' ++ rest)).
+    rewrite IH by (try assumption; lia).
+    rewrite byte_len_app, byte_len_app, count_nl_app. f_equal. f_equal. f_equal; lia.
+Qed.
+
+Lemma ws_skips_line_layout : ws_skips_line_layout_stmt.
+Proof.
+  intros pre l rest nn Hl Hs src. subst src. unfold parse_ws, fuel_for.
+  apply ws_line_gen; try assumption; rewrite !byte_len_app; lia.
+Qed.
+
+Lemma line_layout_text : forall l, line_layout l -> layout_text l.
+Proof. intros l H. induction H as [|it rest Hit _ _ IH]; constructor; assumption. Qed.
+
+(* a layout text without newline characters is a line layout *)
+Lemma layout_text_line : forall l, layout_text l -> count_nl l = 0 -> line_layout l.
+Proof.
+  intros l H. induction H as [|it rest Hit Hr IH]; intros Hz; [constructor|].
+  rewrite count_nl_app in Hz. constructor; [exact Hit | left; lia | apply IH; lia].
 Qed.
 
 Lemma ws_skips_layout_fixed : ws_skips_layout_fixed_stmt.
